@@ -9,12 +9,12 @@ import (
 
 var realComponents = map[string]string{
 	"apis/client, apis/server, pkg/protocol, pkg/cipher, pkg/replay, pkg/congestion, pkg/metrics, pkg/rng, apis/trafficpattern": "real code from /repo's working tree",
-	"network (TCP/UDP between nodes)":  "stub: verifsim/simnet, reached through apicommon.Dialer/PacketDialer/StreamListenerFactory/PacketListenerFactory",
-	"clock, timers":                    "stub: testing/synctest bubble (virtual time)",
+	"network (TCP/UDP between nodes)":                 "stub: verifsim/simnet, reached through apicommon.Dialer/PacketDialer/StreamListenerFactory/PacketListenerFactory",
+	"clock, timers":                                   "stub: testing/synctest bubble (virtual time)",
 	"goroutine scheduling, select choice, timer ties": "Go runtime with the seeded overlay of DESIGN Appendix A, GOMAXPROCS=1",
-	"crypto/rand, math/rand":           "seeded (cryptotest.SetGlobalRandom, rand.Seed)",
-	"applications":                     "stub: scripted PRF writers/readers",
-	"wire tap / reference peers":       "verifsim/refproto, written from docs/protocol.md only",
+	"crypto/rand, math/rand":                          "seeded (cryptotest.SetGlobalRandom, rand.Seed)",
+	"applications":                                    "stub: scripted PRF writers/readers",
+	"wire tap / reference peers":                      "verifsim/refproto, written from docs/protocol.md only",
 }
 
 func runSeed(master uint64, prop string, idx int) uint64 {
@@ -24,13 +24,13 @@ func runSeed(master uint64, prop string, idx int) uint64 {
 func init() {
 	register(&propDef{
 		id: "C01", level: "exploration", quickRuns: 160, thoroughRuns: 4000, wallPerRun: 4 * time.Minute,
-		rule: "Each run: 1-3 real clients x 1-6 multiplexed TCP sessions against a real server, full-duplex PRF scripts with boundary-biased write/read sizes, independent random traffic patterns per side (padding, fragmentation, 4 nonce types, low-entropy off/32/40/48/56 x 31 rotations), both handshake modes, random link latency/jitter/bandwidth/receive buffer and PRNG re-chunking of the byte stream (incl. one byte per read); offset-exact stream oracle at every Read.",
+		rule:        "Each run: 1-3 real clients x 1-6 multiplexed TCP sessions against a real server, full-duplex PRF scripts with boundary-biased write/read sizes, independent random traffic patterns per side (padding, fragmentation, 4 nonce types, low-entropy off/32/40/48/56 x 31 rotations), both handshake modes, random link latency/jitter/bandwidth/receive buffer and PRNG re-chunking of the byte stream (incl. one byte per read); offset-exact stream oracle at every Read.",
 		assumptions: []string{"TCP semantics are those of the simnet model (ordered reliable byte stream, arbitrary re-chunking, back-pressure)", "a clean batch is evidence, not proof"},
 		components:  realComponents,
 		gen: func(master uint64, idx int, tier string) *spec.RunSpec {
 			seed := runSeed(master, "C01", idx)
 			r := simnet.NewRng(seed, "c01-size")
-			maxBytes := r.Pick(2000, 20000, 200000, 200000, 1 << 20)
+			maxBytes := r.Pick(2000, 20000, 200000, 200000, 1<<20)
 			if tier == "thorough" {
 				maxBytes = r.Pick(2000, 20000, 200000, 1<<20, 4<<20, 8<<20)
 			}
@@ -127,7 +127,7 @@ func applyUDPFaultProfile(s *spec.RunSpec, r *simnet.Rng, liveness bool) {
 func init() {
 	register(&propDef{
 		id: "C02", level: "exploration", quickRuns: 192, thoroughRuns: 4000, wallPerRun: 5 * time.Minute,
-		rule: "Each run: 1-3 real clients x 1-4 sessions over the UDP transport (MTU 1280-1500, random traffic patterns incl. low entropy) with one datagram fault profile: clean, light or heavy random loss/duplication/delay-reorder/corruption, bursts, a partition of up to 20 s, or targeted faults on named datagrams (open request/response, nth data segment, acks, close). Offset-exact stream oracle at every Read; progress oracle under explicit fairness budgets (<=4 drops per segment, <=2 faults per handshake, faults stop at a recorded heal instant): every byte is read within 120 virtual s + 10x the loss-free transfer time after the heal.",
+		rule:        "Each run: 1-3 real clients x 1-4 sessions over the UDP transport (MTU 1280-1500, random traffic patterns incl. low entropy) with one datagram fault profile: clean, light or heavy random loss/duplication/delay-reorder/corruption, bursts, a partition of up to 20 s, or targeted faults on named datagrams (open request/response, nth data segment, acks, close). Offset-exact stream oracle at every Read; progress oracle under explicit fairness budgets (<=4 drops per segment, <=2 faults per handshake, faults stop at a recorded heal instant): every byte is read within 120 virtual s + 10x the loss-free transfer time after the heal.",
 		assumptions: []string{"'fair share' is defined by the budgets recorded in each spec (net.maxDropPerSeg, net.maxHandshakeDrops, net.healUs, blackholes <= 20 s)", "UDP semantics are those of the simnet model", "a clean batch is evidence, not proof"},
 		components:  realComponents,
 		gen: func(master uint64, idx int, tier string) *spec.RunSpec {
@@ -144,7 +144,7 @@ func init() {
 	})
 	register(&propDef{
 		id: "C03", level: "exploration", quickRuns: 192, thoroughRuns: 4000, wallPerRun: 5 * time.Minute,
-		rule: "Each run: one side writes n bytes (1 B-1 MiB, boundary biased) in 1-6 successful writes and calls Close after a delay in {0, 50us, 1ms, RTT, random}; the peer reads until EOF or error. Both roles, both transports, 1-3 sessions. UDP: loss/duplication/reordering of datagrams in flight at close time (random and targeted at the last data segments and the close request); TCP: re-chunking, back-pressure, slow links. Oracle: the peer reads all n bytes before EOF, or gets an error; clean EOF after a strict prefix is the violation.",
+		rule:        "Each run: one side writes n bytes (1 B-1 MiB, boundary biased) in 1-6 successful writes and calls Close after a delay in {0, 50us, 1ms, RTT, random}; the peer reads until EOF or error. Both roles, both transports, 1-3 sessions. UDP: loss/duplication/reordering of datagrams in flight at close time (random and targeted at the last data segments and the close request); TCP: re-chunking, back-pressure, slow links. Oracle: the peer reads all n bytes before EOF, or gets an error; clean EOF after a strict prefix is the violation.",
 		assumptions: []string{"only the direction written by the closing side is judged", "a clean batch is evidence, not proof"},
 		components:  realComponents,
 		gen: func(master uint64, idx int, tier string) *spec.RunSpec {
@@ -185,7 +185,7 @@ func init() {
 	c02 := func() *propDef { return props["C02"] }
 	register(&propDef{
 		id: "C13", level: "exploration", quickRuns: 192, thoroughRuns: 4000, wallPerRun: 5 * time.Minute,
-		rule: "Runs are drawn from the C02 and C03 generators (all UDP fault profiles, with and without fairness budgets). On every emitted datagram the tap (reference decoder) checks: (1) the cumulative ack it carries does not exceed the in-order prefix of the opposite direction that simnet has already DELIVERED to the emitting endpoint; (2) every retransmission of a (session, direction, seq) carries the same type, fragment number and plaintext payload as its first transmission; (3) first transmissions of open/data segments appear with seq 0,1,2,... without gaps.",
+		rule:        "Runs are drawn from the C02 and C03 generators (all UDP fault profiles, with and without fairness budgets). On every emitted datagram the tap (reference decoder) checks: (1) the cumulative ack it carries does not exceed the in-order prefix of the opposite direction that simnet has already DELIVERED to the emitting endpoint; (2) every retransmission of a (session, direction, seq) carries the same type, fragment number and plaintext payload as its first transmission; (3) first transmissions of open/data segments appear with seq 0,1,2,... without gaps.",
 		assumptions: []string{"close segments and the underlay's session-less close request are exempt from (3): their seq is an ack number by construction", "the reference codec is the trusted base"},
 		components:  realComponents,
 		gen: func(master uint64, idx int, tier string) *spec.RunSpec {
@@ -226,14 +226,14 @@ func mixGen(id string, salt uint64, parts ...string) func(master uint64, idx int
 func init() {
 	register(&propDef{
 		id: "C14", level: "exploration", quickRuns: 192, thoroughRuns: 4000, wallPerRun: 5 * time.Minute,
-		rule: "UDP runs from the C02/C03 generators with MTU 1280-1500 drawn independently per side, padding maxima 0..255, low-entropy off/32/40/48/56, write sizes 1 B to several fragments, first-write piggyback 0..1024, and fault profiles that force retransmissions, acks and control segments. On every emitted datagram: len <= sender's configured MTU; on every decoded segment (both transports): session payload <= 1024, fragment <= 32768, low-entropy length law.",
+		rule:        "UDP runs from the C02/C03 generators with MTU 1280-1500 drawn independently per side, padding maxima 0..255, low-entropy off/32/40/48/56, write sizes 1 B to several fragments, first-write piggyback 0..1024, and fault profiles that force retransmissions, acks and control segments. On every emitted datagram: len <= sender's configured MTU; on every decoded segment (both transports): session payload <= 1024, fragment <= 32768, low-entropy length law.",
 		assumptions: []string{"the configured MTU of a sender is the mtu field of its own configuration", "the reference codec is the trusted base"},
 		components:  realComponents,
 		gen:         mixGen("C14", 0x14, "C02", "C02", "C03", "C01"),
 	})
 	register(&propDef{
 		id: "C16", level: "exploration", quickRuns: 192, thoroughRuns: 4000, wallPerRun: 5 * time.Minute,
-		rule: "Every run draws independent TrafficPattern messages for server and each client with a random subset of explicit fields at boundary values (0, 255, minLen=maxLen, maxLen below the implicit minLen range, 0..12-byte and multiple fixed prefixes), seed and unlockAll. Before the run: NewConfig succeeds for every message Validate accepts, explicit fields are unchanged in Effective(), Effective() is equal across two constructions and passes Validate, Decode(Encode(p)) == p. On the tap, against Effective(): prefix/suffix padding within the maxima, nonce prefix conforms (first UDP packet / every packet with applyToAllUDPPacket / the TCP nonce), TCP handshake segments fragmented iff explicitly enabled, low-entropy types/mode/rotation as configured, a server uses low entropy only after the client did on that session.",
+		rule:        "Every run draws independent TrafficPattern messages for server and each client with a random subset of explicit fields at boundary values (0, 255, minLen=maxLen, maxLen below the implicit minLen range, 0..12-byte and multiple fixed prefixes), seed and unlockAll. Before the run: NewConfig succeeds for every message Validate accepts, explicit fields are unchanged in Effective(), Effective() is equal across two constructions and passes Validate, Decode(Encode(p)) == p. On the tap, against Effective(): prefix/suffix padding within the maxima, nonce prefix conforms (first UDP packet / every packet with applyToAllUDPPacket / the TCP nonce), TCP handshake segments fragmented iff explicitly enabled, low-entropy types/mode/rotation as configured, a server uses low entropy only after the client did on that session.",
 		assumptions: []string{"implicit values are held to what Config.Effective() reports; explicit ones to what was written", "printable means 0x20..0x7e as documented"},
 		components:  realComponents,
 		gen:         mixGen("C16", 0x16, "C01", "C02", "C03"),
